@@ -334,9 +334,17 @@ def r_kplumb(ctx, fqs=None, floor=0):
             k += 1
             t = f.term(c, nd)
             pos = callee.positional.index(pname) if pname in callee.positional else None
-            if t[0] != 'call':
-                continue
-            arg = call_arg(t, pos, pname)
+            if t[0] == 'call' and (call_name(t) or '').split('.')[-1] == callee.name:
+                arg = call_arg(t, pos, pname)
+            else:
+                # the call was replaced by the callee's body when the term was built: read the argument from the call itself
+                a_ = next((kw.value for kw in c.keywords if kw.arg == pname), None)
+                if a_ is None and pos is not None and pos < len(c.args) and not any(isinstance(x, ast.Starred) for x in c.args):
+                    a_ = c.args[pos]
+                try:
+                    arg = f.term(a_, nd) if a_ is not None else None
+                except AnalysisError:
+                    continue
             role = '%s(%s)#%d' % (callee.name, pname, k)
             if arg is None:
                 run.refute('R-KPLUMB', f, role, nd.lineno,
